@@ -249,6 +249,18 @@ class Program:
         for m in self.modules.values():
             for c in self._all_classes(m):
                 c.bases = [self._resolve_base(m, b) for b in c.node.bases]
+        # class-body aliases of another class's method (`handle_req = Base.handle_set`)
+        for m in self.modules.values():
+            for c in self._all_classes(m):
+                for name, val in c.__dict__.pop("_pending_aliases", []):
+                    d = self.resolve_expr(m, val.value)
+                    if d is not None and d.kind == "class":
+                        f = d.obj.find_method(val.attr)
+                        if f is not None:
+                            c.methods.setdefault(name, []).append(f)
+                            continue
+                    c.attrs[name] = val
+                    c.attr_order.append((name, val))
         self._facts: dict | None = None
         self._with_facts = with_facts
         self._expr_types: dict[str, dict] = {}
@@ -369,6 +381,9 @@ class Program:
                             # `handle_req = _handle_unbuffered` in the class body: another name of the same method
                             c.methods.setdefault(t.id, []).append(c.methods[st.value.id][-1])
                             continue
+                        if isinstance(st.value, ast.Attribute) and isinstance(st.value.value, ast.Name):
+                            # `handle_req = Base.handle_set`: resolved once every class is known (see _link_aliases)
+                            c.__dict__.setdefault("_pending_aliases", []).append((t.id, st.value))
                         c.attrs[t.id] = st.value
                         c.attr_order.append((t.id, st.value))
             elif isinstance(st, ast.AnnAssign) and isinstance(st.target, ast.Name):
@@ -771,7 +786,34 @@ class Folder:
                 return len(self.fold(m, expr.args[0], local))
             if isinstance(fn, ast.Name) and fn.id == "int" and len(expr.args) == 1:
                 return int(self._plain(self.fold(m, expr.args[0], local)))
+            if isinstance(fn, ast.Name) and fn.id == "range" and 1 <= len(expr.args) <= 3 and not expr.keywords:
+                vals = [self._plain(self.fold(m, a, local)) for a in expr.args]
+                if all(isinstance(v, int) and not isinstance(v, bool) for v in vals):
+                    return range(*vals)
+            if isinstance(fn, ast.Name) and fn.id in ("min", "max") and len(expr.args) == 1 and not expr.keywords:
+                seq = [self._plain(x) for x in self.fold(m, expr.args[0], local)]
+                if seq:
+                    return (min if fn.id == "min" else max)(seq)
             raise Unfoldable(f"call {ast.unparse(expr)[:60]}")
+        if isinstance(expr, ast.Subscript) and not isinstance(expr.slice, ast.Slice):
+            base = self.fold(m, expr.value, local)
+            idx = self._plain(self.fold(m, expr.slice, local))
+            if isinstance(base, (range, tuple, list)) and isinstance(idx, int):
+                try:
+                    return base[idx]
+                except IndexError as err:
+                    raise Unfoldable(f"index {idx} out of range") from err
+            if isinstance(base, dict):
+                try:
+                    return base[idx]
+                except (KeyError, TypeError) as err:
+                    raise Unfoldable("missing key") from err
+            raise Unfoldable("subscript")
+        if isinstance(expr, ast.UnaryOp) and isinstance(expr.op, ast.USub):
+            v = self._plain(self.fold(m, expr.operand, local))
+            if isinstance(v, (int, float)):
+                return -v
+            raise Unfoldable("unary")
         if isinstance(expr, ast.JoinedStr):
             parts = []
             for v in expr.values:
